@@ -2,6 +2,7 @@ package ssaexec
 
 import (
 	"fmt"
+	"go/token"
 	"go/types"
 	"strings"
 
@@ -53,6 +54,7 @@ type Options struct {
 	Trace       bool
 	SolverKind  string
 	SolverTimeoutMs int
+	IntAssert   bool // property (assertion) queries go to the integer translation first
 	IntFirst    bool // arithmetic harness: decide queries on the integer translation first
 	IntTimeoutMs int
 }
@@ -64,6 +66,7 @@ type Stats struct {
 	SolverChecks int
 	Instrs       int64
 	Unknowns     int
+	IntervalDecided int
 	IntQueries   int
 	IntDecided   int
 	IntTimeNs    int64
@@ -108,6 +111,7 @@ type Frame struct {
 	result ssa.Value // call instruction in the caller receiving the result
 	visits map[int]int
 	onReturn func(ret Value) // engine-level continuation (used by intrinsics that call back)
+	lastPos token.Pos
 	deferring bool
 	rundefersPC int
 }
@@ -140,6 +144,7 @@ type State struct {
 	decs     []Decision // decisions taken on this path
 	synced   int        // decisions [0,synced) are already on the solver stack
 	hasPrev  bool
+	multiVar bool // the path condition contains constraints over more than one variable
 	pathCond []*smt.Term
 	domains  map[uint32]*[4]uint64 // byte-variable domains
 	events   []event
@@ -301,8 +306,10 @@ func (st *State) curPos() string {
 			name = name[j+1:]
 		}
 		pos := "?"
-		if in != nil {
+		if in != nil && in.Pos().IsValid() {
 			pos = posStr(st.w.P.Fset, in.Pos())
+		} else if f.lastPos.IsValid() {
+			pos = posStr(st.w.P.Fset, f.lastPos)
 		}
 		parts = append(parts, name+"@"+pos)
 		if f.caller != nil && f.result != nil {
